@@ -258,6 +258,12 @@ def Mon.step (m : Mon) (w : World) (l : Label) (w' : World) : Mon × List Vio :=
     let vs :=
       (if res == .ok && !C13.bound w' b then v "C13" "bound" [] s!"bus {b} history {(w'.bus b).hist.length}" else []) ++
       (if res != .ok && !C14.rejectFrame w w' b then v "C14" "rejectFrame" [] s!"bus {b} event {e}" else []) ++
+      -- a forward is refused only for the documented reasons (queue / backlog limit, stopped bus); refused otherwise, the
+      -- target bus never processes an event that reached it through forwarding (the guard of dispatch demands the model's
+      -- outcome, so this fires on a history followed after the correspondence has broken)
+      (if isFwd && res != .ok && res != dispatchOutcome w b then
+         v "C07" "forwardRefused" [] s!"the forward of event {e} to bus {b} was refused ({repr res}) although the bus had room for it: bus {b} never processes the event"
+       else []) ++
       (if E'.path.eraseDups.length != E'.path.length then v "C07" "pathDup" [] s!"event {e} path {E'.path}" else []) ++
       (match E.parent with
        | some x => if E'.parent != some x then v "C09" "parentOverwritten" [] s!"event {e}" else []
